@@ -7,6 +7,8 @@ import (
 
 	"google.golang.org/protobuf/internal/impl"
 	legacypb "google.golang.org/protobuf/internal/testprotos/legacy/proto2_20160225_2fc053c5"
+	testpb "google.golang.org/protobuf/internal/testprotos/test"
+	"google.golang.org/protobuf/runtime/protoiface"
 	"google.golang.org/protobuf/runtime/protoimpl"
 	"google.golang.org/protobuf/verifmc/core"
 )
@@ -75,6 +77,44 @@ func legacyFamily() firstUse {
 	}
 }
 
+// requiredCheckFamily: the "does this type need an initialisation check" cache is
+// filled under a mutex but read without it; two fresh MessageInfos of a type whose
+// required fields sit in a sub-message make first use concurrently.
+func requiredCheckFamily() firstUse {
+	orig := (&testpb.TestRequiredForeign{}).ProtoReflect().(interface{ ProtoMessageInfo() *impl.MessageInfo }).ProtoMessageInfo()
+	fresh := func() *impl.MessageInfo {
+		return &impl.MessageInfo{GoReflectType: orig.GoReflectType, Desc: orig.Desc, Exporter: orig.Exporter, OneofWrappers: orig.OneofWrappers}
+	}
+	partial := func() *testpb.TestRequiredForeign {
+		return &testpb.TestRequiredForeign{OptionalMessage: &testpb.TestRequired{}}
+	}
+	mis := func(st any) [2]*impl.MessageInfo { return st.([2]*impl.MessageInfo) }
+	marshal := func(mi *impl.MessageInfo) string {
+		m := mi.MessageOf(partial())
+		_, err := m.ProtoMethods().Marshal(protoiface.MarshalInput{Message: m})
+		ci, cerr := m.ProtoMethods().CheckInitialized(protoiface.CheckInitializedInput{Message: m})
+		_ = ci
+		return fmt.Sprint("marshal-reports-missing-required=", err != nil, " checkinitialized-reports=", cerr != nil)
+	}
+	unmarshal := func(mi *impl.MessageInfo) string {
+		m := mi.MessageOf(&testpb.TestRequiredForeign{})
+		out, err := m.ProtoMethods().Unmarshal(protoiface.UnmarshalInput{Message: m, Buf: []byte{0x0a, 0x00}, Depth: 100})
+		return fmt.Sprint("err=", err, " claims-initialized=", out.Flags&protoiface.UnmarshalInitialized != 0)
+	}
+	return firstUse{
+		name:  "required-field bookkeeping cache (needsInitCheck) under concurrent first use of two MessageInfos of TestRequiredForeign (cache reset)",
+		fresh: func() any { impl.VerifResetLegacyCaches(); return [2]*impl.MessageInfo{fresh(), fresh()} },
+		quick: 4,
+		ops: []fuOp{
+			{"mi1.Marshal+CheckInitialized(partial)", func(st any) string { return marshal(mis(st)[0]) }},
+			{"mi2.Marshal+CheckInitialized(partial)", func(st any) string { return marshal(mis(st)[1]) }},
+			{"mi1.Unmarshal(partial)", func(st any) string { return unmarshal(mis(st)[0]) }},
+			{"mi2.Unmarshal(partial)", func(st any) string { return unmarshal(mis(st)[1]) }},
+		},
+	}
+}
+
 func legacyPlans(c *core.Ctx, bound int) []map[string]any {
-	return exploreFamily(c, legacyFamily(), bound, nil, true)
+	out := exploreFamily(c, legacyFamily(), bound, nil, true)
+	return append(out, exploreFamily(c, requiredCheckFamily(), bound, nil, true)...)
 }
